@@ -3,7 +3,9 @@
 package c06
 
 import (
+	"context"
 	"fmt"
+	"github.com/wi1dcard/fingerproxy/pkg/metadata"
 	"testing"
 	"testing/synctest"
 	"time"
@@ -27,6 +29,7 @@ import (
 //     be made to share) and stays open,
 //   - a population of P clients with pairwise different cipher-suite AND extension lists connects, sends one request
 //     and leaves (more distinct hellos than any table of recently seen ones holds),
+//
 // then the two residents send again, and their hellos come back on fresh connections. Every request that reaches the
 // backend is judged as in the interleaving part: the three fingerprints are those of its own connection.
 func populationPass(t *testing.T, rep *ev.Report) {
@@ -41,7 +44,10 @@ func populationPass(t *testing.T, rep *ev.Report) {
 		h2 *h2fpref.State
 	}
 	res := bubble.Run(t, func() {
-		st := bubble.NewStack(bubble.StackOpts{Injectors: fingerproxy.DefaultHeaderInjectors(), HandshakeTimeout: 10 * time.Second})
+		// library use: the caller's own context has been through metadata.NewContext already (it carries a Metadata of
+		// its own, e.g. because it was derived from another connection's context); every connection still gets its own
+		baseCtx, _ := metadata.NewContext(context.Background())
+		st := bubble.NewStack(bubble.StackOpts{Injectors: fingerproxy.DefaultHeaderInjectors(), HandshakeTimeout: 10 * time.Second, BaseCtx: baseCtx})
 		defer st.Shutdown()
 		addr := memnet.TCPAddr("198.51.100.7", 44444)
 		by := map[string]sent{}
